@@ -3,6 +3,8 @@ C12 — every HTTP outcome is classified correctly, keeps partial data, closes t
 Decision logic stated outright over the model `Genq.HttpResp.makeRequest`.
 -/
 import Genq.Model.HttpResp
+import Genq.Model.ClientSkel
+import Genq.Extracted.Client
 namespace Genq.HttpResp
 
 /-- a non-200 status always yields an HTTPError carrying that status; it carries the decoded
@@ -90,3 +92,16 @@ example : (makeRequest (.resp 200 ⟨false, false, false, true, true⟩)) = ⟨.
 example : (makeRequest (.resp 500 ⟨true, false, false, false, false⟩)) = ⟨.httpError 500 .unreadableText, 1, false⟩ := by decide
 
 end Genq.HttpResp
+
+namespace Genq
+
+/-- **C12_client_skeleton_tie** — MakeRequest as it stands in /repo: Do; on success a deferred Body.Close before
+    anything is read; status gate with ReadAll and the JSON-or-text fallback; Decode into the caller's Response;
+    resp.Errors returned last -/
+theorem C12_client_skeleton_tie : Extracted.httpClientSkeleton = ClientSkel.httpClientSkeleton := rfl
+
+/-- **C12_operation_template_tie** — the generated helper (operation.go.tmpl) as it stands in /repo: client getter
+    early return, data_ allocated before MakeRequest and returned together with err_ -/
+theorem C12_operation_template_tie : Extracted.operationTmpl = ClientSkel.operationTmpl := rfl
+
+end Genq
